@@ -1,10 +1,221 @@
 import Driver.Util
+import Driver.StorageCodec
+import Hv.Storage.Writer
 
-/-! Placeholder: the line-protocol driver of domain C01 is not written yet. -/
+/-! Driver for domain C01.
+
+  The writer model runs on the op lines with the identity codec (lawful; block boundaries, counts,
+  header counters and the name do not depend on the codec).  On `raw HEX` the *real file's bytes*
+  are parsed by the model reader instantiated with the executable snappy decoder and CRC-32, and
+  the resulting structure is compared with the structure of the model's own file (`pred=`).
+  On `load`/`raw` the model's result is compared with the Spec fold over the acknowledged writes
+  that have left the buffer; a difference is flagged `#F:<finding>` with the cause. -/
 namespace Driver.C01
+open Hv.Storage Driver.Stor
 
-def run (_args : List String) : IO UInt32 := do
-  IO.eprintln "drv: domain C01 has no driver yet"
-  return 2
+structure DS where
+  cfg : Cfg
+  bs : Nat := 0
+  name : Bytes := []
+  st : St := ⟨[], none⟩
+  fileExists : Bool := false
+  /-- acknowledged writes, newest first -/
+  accRev : List Entry := []
+  /-- chronicler mode: configured, file not created yet (the writer is opened lazily) -/
+  chronLazy : Bool := false
+
+def triArg (kv : List (String × String)) (k : String) (dflt : Bool) : Bool :=
+  match arg kv k with
+  | "yes" => true
+  | "no" => false
+  | _ => dflt
+
+def cfgOfArgs (kv : List (String × String)) : Cfg :=
+  { rejectsEmptyKey := triArg kv "rejectsEmptyKey" false
+    rejectsLongKey := triArg kv "rejectsLongKey" false
+    flushGe := arg kv "flushCmp" != "gt"
+    flushAtCount := triArg kv "flushAtCount" false
+    deleteRemoves := triArg kv "deleteRemoves" true
+    validatesCrc := triArg kv "validatesCrc" true
+    validatesULen := triArg kv "validatesULen" true
+    boundsCompressedSize := triArg kv "boundsCompressedSize" false
+    boundsDecodedLen := triArg kv "boundsDecodedLen" false
+    parseConsumesAll := triArg kv "parseConsumesAll" false
+    v2Fallback := triArg kv "v2Fallback" true
+    rejectsLongName := triArg kv "rejectsLongName" false }
+
+def replyStr : Reply → String
+  | .ok => "ok"
+  | .rejClosed => "rej closed"
+  | .rejEmptyKey => "rej emptykey"
+  | .rejLongKey => "rej longkey"
+  | .rejOpen => "rej open"
+  | .rejHeader => "rej header"
+
+def doOp (d : DS) (op : Op) : DS × Reply :=
+  let (st', r) := step d.cfg idCodec crc0 d.bs d.st op
+  let acc := match op, r with
+    | .write e, .ok => e :: d.accRev
+    | _, _ => d.accRev
+  ({ d with st := st', accRev := acc }, r)
+
+/-- acknowledged writes that have left the buffer, oldest first -/
+def flushedOf (d : DS) : List Entry :=
+  (d.accRev.drop d.st.pending.length).reverse
+
+/-- structure of arbitrary file bytes under a decoder/checksum -/
+structure Parsed where
+  openErr : Option Err := none
+  hdr : Option FileHeader := none
+  name : Bytes := []
+  counts : List Nat := []
+  entries : List Entry := []
+  blocksErr : Option Err := none
+  load : Except Err (Index × Bytes) := .error .short
+
+def parseFile (cfg : Cfg) (dec : Decoder) (crc : Checksum) (file : Bytes) : Parsed :=
+  match openReader file with
+  | .error e => { openErr := some e }
+  | .ok r =>
+    let rec go (fuel : Nat) (rest : Bytes) (cs : List Nat) (es : List (List Entry)) : List Nat × List (List Entry) × Option Err :=
+      match fuel with
+      | 0 => (cs.reverse, es.reverse, none)
+      | fuel + 1 =>
+        match readNextBlock cfg dec crc rest with
+        | .eof => (cs.reverse, es.reverse, none)
+        | .err e => (cs.reverse, es.reverse, some e)
+        | .ok b rest' => go fuel rest' (b.length :: cs) (b :: es)
+    let (cs, es, err) := go (file.length / 16 + 1) (file.drop r.hdr.dataStart) [] []
+    let all := es.flatten
+    let load : Except Err (Index × Bytes) := match err with
+      | some e => .error e
+      | none => .ok (replay cfg all, if r.name.isEmpty then metaName all else r.name)
+    { hdr := some r.hdr, name := r.name, counts := cs, entries := all, blocksErr := err, load := load }
+
+def countsStr (cs : List Nat) : String :=
+  if cs.isEmpty then "-" else ",".intercalate (cs.map toString)
+
+def rawLine (p : Parsed) : String :=
+  match p.openErr, p.hdr with
+  | some e, _ => s!"raw err:{e.name}"
+  | none, none => "raw err:short"
+  | none, some h =>
+    let head := s!"raw v={h.version} ec={h.entryCount} bc={h.blockCount} name={hex p.name}"
+    let mid := match p.blocksErr with
+      | some e => s!" blocks=err:{e.name} ents=err:{e.name}"
+      | none => s!" blocks={countsStr p.counts} ents={entriesDigest p.entries}"
+    let tail := match p.load with
+      | .error e => s!" idx=err:{e.name}"
+      | .ok (m, _) => s!" idx={indexDigest m}"
+    head ++ mid ++ tail
+
+def loadLine (r : Except Err (Index × Bytes)) : String :=
+  match r with
+  | .error e => s!"err {e.name}"
+  | .ok (m, n) => s!"idx {indexDigest m} name={hex n}{indexListing m}"
+
+/-- why the model's load differs from the Spec (`p` = the model's own file, parsed) -/
+def causeOf (d : DS) (p : Parsed) : String :=
+  let fl := flushedOf d
+  if fl.any (fun e => e.key.isEmpty) then "C01-empty-key-accepted"
+  else if fl.any (fun e => 65535 < e.key.length) then "C01-long-key-accepted"
+  else if (p.hdr.map (·.entryCount)).getD fl.length != fl.length then "C01-block-entry-count-overflow"  -- Σ (len mod 65536) ≠ len
+  else if !d.cfg.deleteRemoves then "C01-delete-not-replayed"
+  else "C01-replay-mismatch"
+
+/-- does the model's load result equal the Spec state of the flushed acknowledged writes? -/
+def specFlag (d : DS) (r : Except Err (Index × Bytes)) : String :=
+  let want := specOf (flushedOf d)
+  let good := match r with
+    | .error _ => false
+    | .ok (m, _) => indexDigest m == indexDigest want
+  if good then "" else
+    s!"\t#F:{causeOf d (parseFile d.cfg idCodec.toDecoder crc0 d.st.file)}"
+
+/-- `chroniclerV2.Write` of one treasure: `ensureWriter` (create on first use, reopen after a
+    `Close`), then `WriteEntry`; an error is logged and the entry dropped -/
+def chronWrite (d : DS) (e : Entry) : DS :=
+  let d1 : DS :=
+    if d.chronLazy then
+      match createFileCfg d.cfg d.name 0 with
+      | none => d
+      | some st => { d with st := st, fileExists := true, chronLazy := false }
+    else if d.st.sess.isNone && d.fileExists then (doOp d .reopen).1
+    else d
+  (doOp d1 (.write e)).1
+
+def step (d : DS) (line : String) : DS × String :=
+  match line.splitOn " " with
+  | ["case", _] => ({ cfg := d.cfg }, line)
+  | ["cfg", bs, nm] =>
+    match bs.toNat?, parseSpec nm with
+    | some bs, some name =>
+      match createFileCfg d.cfg name 0 with
+      | none => ({ cfg := d.cfg, bs := bs, name := name }, "rej longname")
+      | some st => ({ cfg := d.cfg, bs := bs, name := name, st := st, fileExists := true }, "ok")
+    | _, _ => (d, "bad-op")
+  | ["w", op, k, v] =>
+    match op.toNat?, parseSpec k, parseSpec v with
+    | some op, some k, some v =>
+      if op > 255 then (d, "bad-op") else
+      let (d', r) := doOp d (.write ⟨UInt8.ofNat op, k, v⟩)
+      (d', replyStr r)
+    | _, _, _ => (d, "bad-op")
+  | ["wn", n, kl, dl, st] =>
+    match n.toNat?, kl.toNat?, dl.toNat?, st.toNat? with
+    | some n, some kl, some dl, some st =>
+      let (d', okc, last) := (List.range n).foldl (fun (acc : DS × Nat × String) i =>
+        let (d, okc, last) := acc
+        let (d', r) := doOp d (.write ⟨1, genBytes kl (st + i), genBytes dl (st + i)⟩)
+        if r == .ok then (d', okc + 1, last) else (d', okc, replyStr r)) (d, 0, "ok")
+      (d', if okc == n then "ok" else s!"{last} after={okc}")
+    | _, _, _, _ => (d, "bad-op")
+  | ["ccfg", bs, nm] =>
+    match bs.toNat?, parseSpec nm with
+    | some bs, some name =>
+      -- NewV2WithConfig carries no name; NewV2WithName uses the default block size
+      ({ cfg := d.cfg, bs := bs, name := if bs == 0 then name else [], chronLazy := true }, "ok")
+    | _, _ => (d, "bad-op")
+  | ["cw", k, v] =>
+    match parseSpec k, parseSpec v with
+    | some k, some v => (chronWrite d ⟨opInsert, k, v⟩, "ok")
+    | _, _ => (d, "bad-op")
+  | ["cd", k] =>
+    match parseSpec k with
+    | some k => (chronWrite d ⟨opDelete, k, []⟩, "ok")
+    | none => (d, "bad-op")
+  | ["cclose"] => let (d', _) := doOp d .close; (d', "ok")
+  | ["cload"] =>
+    if !d.fileExists then (d, "cidx 0:00000000 ") else
+    let r := loadIndex d.cfg idCodec.toDecoder crc0 d.st.file
+    let line := match r with
+      | .error e => s!"cidx err:{e.name}"
+      | .ok (m, _) => s!"cidx {indexDigest m}{indexListing m}"
+    (d, line ++ specFlag d r)
+  | ["flush"] => let (d', r) := doOp d .flush; (d', replyStr r)
+  | ["sync"] => let (d', r) := doOp d .sync; (d', replyStr r)
+  | ["close"] => let (d', r) := doOp d .close; (d', replyStr r)
+  | ["reopen"] =>
+    if d.st.sess.isNone && !d.fileExists then (d, "rej header") else
+    let (d', r) := doOp d .reopen; (d', replyStr r)
+  | ["load"] =>
+    if !d.fileExists then (d, "err nofile") else
+    let r := loadIndex d.cfg idCodec.toDecoder crc0 d.st.file
+    (d, loadLine r ++ specFlag d r)
+  | ["raw", h] =>
+    match unhex h with
+    | none => (d, "bad-op")
+    | some bytes =>
+      let real := parseFile d.cfg snappyDecoder crc32 bytes
+      let mine := parseFile d.cfg idCodec.toDecoder crc0 d.st.file
+      let same := rawLine real == rawLine mine
+      let pred := if same then "ok" else s!"DIFF[{rawLine mine}]"
+      (d, s!"{rawLine real} det=ok pred={pred}" ++ specFlag d real.load)
+  | _ => (d, "bad-op")
+
+def run (args : List String) : IO UInt32 := do
+  let kv := parseArgs args
+  lineLoop step { cfg := cfgOfArgs kv }
+  return 0
 
 end Driver.C01
